@@ -7,6 +7,7 @@ ROOT = "/verif/seeded"
 seeds = sys.argv[1:] or sorted(d for d in os.listdir(ROOT) if os.path.isdir(os.path.join(ROOT, d)))
 def sh(cmd, **kw):
     return subprocess.run(cmd, shell=True, capture_output=True, text=True, **kw)
+ALSO = {"C06-m1": ["C15"], "C03-m2": ["C16"], "C05-m1": ["C06"], "C14-m2": ["C06"]}
 man = json.load(open("/verif/MANIFEST.json"))
 claimed = {c["property_id"] for c in man["checks"]}
 for s in seeds:
@@ -30,14 +31,20 @@ for s in seeds:
             print(s, "patch does not apply")
         else:
             env = dict(os.environ); env["PYTHONPATH"] = wt; env["VERIF_MAX_NEW_SHAPES"] = "3"
-            t0 = time.time()
-            r = sh(f"/verif/check {prop} --tier quick --no-evidence", env=env, cwd="/verif")
-            viol = [l for l in r.stdout.splitlines() if l.startswith("VIOLATION")]
-            det = [l.strip() for l in r.stdout.splitlines() if l.strip().startswith("detail:")]
-            meta["detection"] = {"status": "detected" if (r.returncode == 1 and viol) else f"NOT detected (exit {r.returncode})",
-                                 "command": f"PYTHONPATH=<scratch worktree with patch> ./check {prop} --tier quick", "exit": r.returncode,
-                                 "violations": len(viol), "first_detail": det[:2], "repo_head": sh("git -C /repo rev-parse --short HEAD").stdout.strip(),
-                                 "wall_s": round(time.time() - t0, 1)}
+            # the seed's own property first; a change can also (or only) be visible to the check of a neighbouring property
+            for chk in [prop] + ALSO.get(s, []):
+                t0 = time.time()
+                r = sh(f"/verif/check {chk} --tier quick --no-evidence", env=env, cwd="/verif")
+                viol = [l for l in r.stdout.splitlines() if l.startswith("VIOLATION")]
+                det = [l.strip() for l in r.stdout.splitlines() if l.strip().startswith("detail:")]
+                ok = r.returncode == 1 and bool(viol)
+                meta.setdefault("detection_runs", {})[chk] = "detected" if ok else f"not detected (exit {r.returncode})"
+                meta["detection"] = {"status": f"detected by {chk}" if ok else f"NOT detected (exit {r.returncode})",
+                                     "command": f"PYTHONPATH=<scratch worktree with patch> ./check {chk} --tier quick", "exit": r.returncode,
+                                     "violations": len(viol), "first_detail": det[:2], "repo_head": sh("git -C /repo rev-parse --short HEAD").stdout.strip(),
+                                     "wall_s": round(time.time() - t0, 1)}
+                if ok:
+                    break
             print(s, meta["detection"]["status"], (det[:1] or [""])[0][:160])
     finally:
         sh(f"git -C /repo worktree remove --force {wt}"); shutil.rmtree(wt, ignore_errors=True)
